@@ -87,7 +87,10 @@ def main():
                 # header: reuse return/param types, fresh param names
                 ps = ', '.join('%s %%p%d' % (tstr(t), k) for k, (t, n, at) in enumerate(f.params))
                 if f.vararg:
-                    raise IRError('cannot forward vararg function %s' % f.name)
+                    # a DEFINED vararg member (notify_formatted): forward the fixed parameters only (stubs of such functions ignore the rest)
+                    if not line.startswith('define') or (tgt not in mod.functions and tgt not in ('!noop', '!unreachable')):
+                        raise IRError('cannot forward vararg function %s' % f.name)
+                    ps += ', ...'
                 defname = f.name
                 if not is_def:
                     # a library function (malloc, read, ...): never redefine the symbol natively, redirect the call sites
@@ -130,11 +133,15 @@ def main():
                         args = ['%s %%p%d' % (tstr(t), k) for k, (t, n, at) in enumerate(f.params)]
                         rt = f.ret
                         extra_decl.append('declare %s %s(%s)' % (tstr(f.ret), gref(tgt), ', '.join(tstr(t) for t, n, at in f.params)))
+                    if tgt in mod.functions and mod.functions[tgt].vararg:
+                        fty = ' (%s, ...)' % ', '.join(tstr(st) for st, sn, sat in mod.functions[tgt].params)
+                    else:
+                        fty = ''
                     if rt == ('void',):
-                        body.append('  call void %s(%s)' % (gref(tgt), ', '.join(args)))
+                        body.append('  call void%s %s(%s)' % (fty, gref(tgt), ', '.join(args)))
                         body.append('  ret void')
                     else:
-                        body.append('  %%r = call %s %s(%s)' % (tstr(rt), gref(tgt), ', '.join(args)))
+                        body.append('  %%r = call %s%s %s(%s)' % (tstr(rt), fty, gref(tgt), ', '.join(args)))
                         if rt == f.ret:
                             body.append('  ret %s %%r' % tstr(rt))
                         elif rt[0] == 'ptr' and f.ret[0] == 'ptr':
